@@ -3,6 +3,7 @@ package props
 // C20 — level names and the level HTTP endpoint set exactly the requested level.
 
 import (
+	"context"
 	"encoding/json"
 	"errors"
 	"flag"
@@ -13,6 +14,7 @@ import (
 	"net/url"
 	"strings"
 	"testing"
+	"time"
 
 	"go.uber.org/zap"
 	"go.uber.org/zap/zapcore"
@@ -494,7 +496,76 @@ func FuzzC20(f *testing.F) {
 	})
 }
 
+// c20GatedBody is a request body whose bytes become available only when the gate is opened.
+type c20GatedBody struct {
+	gate    chan struct{}
+	entered chan struct{}
+	data    *strings.Reader
+	once    bool
+	drained chan struct{}
+}
+
+func (b *c20GatedBody) Read(p []byte) (int, error) {
+	if !b.once {
+		b.once = true
+		close(b.entered)
+		<-b.gate
+	}
+	n, err := b.data.Read(p)
+	if err == io.EOF {
+		select {
+		case <-b.drained:
+		default:
+			close(b.drained)
+		}
+	}
+	return n, err
+}
+func (b *c20GatedBody) Close() error { return nil }
+
+// The answer to a PUT is final: a request that was answered with an error status has not changed the level and
+// never will (a slow body arriving after the client gave up and the context ended included); one answered with
+// 200 has changed it by the time the answer is written.
+func c20AnsweredMeansDone(t *testing.T) {
+	for _, cancelFirst := range []bool{true, false} {
+		al := zap.NewAtomicLevelAt(zapcore.InfoLevel)
+		body := &c20GatedBody{gate: make(chan struct{}), entered: make(chan struct{}), drained: make(chan struct{}), data: strings.NewReader(`{"level":"debug"}`)}
+		ctx, cancel := context.WithCancel(context.Background())
+		req := httptest.NewRequest(http.MethodPut, "/level", body).WithContext(ctx)
+		req.Header.Set("Content-Type", "application/json")
+		rec := httptest.NewRecorder()
+		answered := make(chan struct{})
+		go func() { al.ServeHTTP(rec, req); close(answered) }()
+		<-body.entered
+		if cancelFirst {
+			cancel() // the client went away while the handler waits for the body
+		}
+		// give a handler that does not wait for the body the chance to answer early (bounded; decides nothing on a
+		// handler that waits)
+		select {
+		case <-answered:
+		case <-time.After(100 * time.Millisecond):
+		}
+		close(body.gate)
+		<-answered
+		// whatever still reads the body gets the chance to finish (bounded)
+		select {
+		case <-body.drained:
+		case <-time.After(200 * time.Millisecond):
+		}
+		time.Sleep(20 * time.Millisecond)
+		cancel()
+		switch {
+		case rec.Code == http.StatusOK && al.Level() != zapcore.DebugLevel:
+			t.Fatalf("PUT answered 200 but the level is %v", al.Level())
+		case rec.Code != http.StatusOK && al.Level() != zapcore.InfoLevel:
+			t.Fatalf("PUT was answered with status %d (an error), yet the level changed to %v afterwards", rec.Code, al.Level())
+		}
+	}
+}
+
 func TestRegressC20(t *testing.T) {
+	c20AnsweredMeansDone(t)
 	// non-ASCII look-alikes are not level names
 	for _, s := range []string{"İNFO", "PANİC", "ınfo", "ｉｎｆｏ", " info", "info\n"} {
 		l := zapcore.Level(3)
